@@ -598,15 +598,42 @@ def _array_comp_helper(a, b):
     return a, b
 
 
+def _closeness_tolerances(a, args, kwargs):
+    # rtol, atol follow a and b, by position or by keyword; a tolerance given
+    # as a quantity is a difference, to be read in the unit the numbers are in
+    args = list(args)
+    units = getattr(a, "units", NULL_UNIT)
+    for pos, name in enumerate(("rtol", "atol")):
+        if pos < len(args):
+            tol = args[pos]
+        elif name in kwargs:
+            tol = kwargs[name]
+        else:
+            continue
+        if not hasattr(tol, "units"):
+            continue
+        target = NULL_UNIT if name == "rtol" else units
+        if tol.units.dimensions != target.dimensions:
+            raise UnitInconsistencyError(target, tol.units)
+        tol = np.asarray(tol) * (tol.units.base_value / target.base_value)
+        if pos < len(args):
+            args[pos] = tol
+        else:
+            kwargs[name] = tol
+    return args, kwargs
+
+
 @implements(np.isclose)
 def isclose(a, b, *args, **kwargs):
     a, b = _array_comp_helper(a, b)
+    args, kwargs = _closeness_tolerances(a, args, kwargs)
     return np.isclose._implementation(np.asarray(a), np.asarray(b), *args, **kwargs)
 
 
 @implements(np.allclose)
 def allclose(a, b, *args, **kwargs):
     a, b = _array_comp_helper(a, b)
+    args, kwargs = _closeness_tolerances(a, args, kwargs)
     return np.allclose._implementation(np.asarray(a), np.asarray(b), *args, **kwargs)
 
 
